@@ -220,3 +220,107 @@ Proof.
   cbn zeta. split; [|split]; [|vm_compute; reflexivity|vm_compute; reflexivity].
   intros k [<-|[<-|[]]]; cbn; lia.
 Qed.
+
+(** * Polynomials: matrix elements of the index-permuted polynomial
+
+    With the matrix-element semantics of PV.PolySem (<t| P |s> = sum over the monomials of
+    coefficient * (+1 / -1 / 0 from [act_mono])), over any commutative ring of coefficients:
+        < U_pi t | pi(P) | U_pi s >  =  < t | P | s >,      U_pi |s> = (-1)^(sign_of ks s) |state_perm ks s>,
+    i.e. pi(P) = U_pi P U_pi^{-1}: the polynomial with every index renamed by pi is conjugate to
+    the original by the signed permutation of the Fock basis induced by pi.  The polynomial is
+    any list of (monomial, coefficient) pairs -- normal-ordered or not -- so this applies to the
+    Hamiltonian that IndexHamiltonian::prepare assembles from the lattice terms and to c_i, c^+_i. *)
+Require Import Ring_theory Ring.
+From PV Require Import Poly PolySem.
+
+Lemma swap_at_invol (k : nat) : forall s : state, swap_at k (swap_at k s) = s.
+Proof.
+  induction k as [|k IH]; intros s.
+  - destruct s as [|a [|b r]]; reflexivity.
+  - destruct s as [|h t]; [reflexivity|]. cbn [swap_at]. rewrite IH. reflexivity.
+Qed.
+
+Lemma state_perm_inj (ks : list nat) (s t : state) : state_perm ks s = state_perm ks t -> s = t.
+Proof.
+  revert s t. induction ks as [|k r IH]; intros s t E; [exact E|].
+  cbn [state_perm] in E. apply IH.
+  rewrite <- (swap_at_invol k (state_perm r s)), E. apply swap_at_invol.
+Qed.
+
+Lemma state_eqb_iff (s t : state) : state_eqb s t = true <-> s = t.
+Proof.
+  revert t. induction s as [|a s IH]; intros [|b t]; cbn [state_eqb]; split; intros E;
+    try reflexivity; try discriminate E.
+  - apply andb_true_iff in E. destruct E as [Eab Est]. apply eqb_prop in Eab. apply IH in Est. congruence.
+  - injection E as -> ->. rewrite eqb_reflx. cbn [andb]. apply IH. reflexivity.
+Qed.
+
+Lemma state_eqb_perm (ks : list nat) (s t : state) :
+  state_eqb (state_perm ks s) (state_perm ks t) = state_eqb s t.
+Proof.
+  destruct (state_eqb s t) eqn:E.
+  - apply state_eqb_iff in E. subst t. apply state_eqb_iff. reflexivity.
+  - destruct (state_eqb (state_perm ks s) (state_perm ks t)) eqn:E'; [|reflexivity].
+    apply state_eqb_iff in E'. apply state_perm_inj in E'. apply state_eqb_iff in E'. congruence.
+Qed.
+
+Section PolyPermute.
+  Variable K : Type.
+  Variables (k0 k1 : K) (kadd kmul ksub : K -> K -> K) (kopp : K -> K).
+  Hypothesis Rth : ring_theory k0 k1 kadd kmul ksub kopp (@eq K).
+  Add Ring C18Kring : Rth.
+
+  Local Notation coef_mono := (coef_mono K k0 k1 kopp).
+  Local Notation coef_poly := (coef_poly K k0 k1 kadd kmul kopp).
+
+  (** multiplication by (-1)^b *)
+  Definition sgn (b : bool) (x : K) : K := if b then kopp x else x.
+
+  (** every index of every monomial renamed by the permutation; coefficients untouched *)
+  Definition poly_rename (ks : list nat) (p : poly K) : poly K :=
+    map (fun mc => (map (perm_op ks) (fst mc), snd mc)) p.
+
+  Lemma coef_mono_permute (ks : list nat) (m : monomial) (s t : state) :
+    (forall k, In k ks -> S k < length s) ->
+    coef_mono (map (perm_op ks) m) (state_perm ks s) (state_perm ks t) =
+    sgn (xorb (sign_of ks s) (sign_of ks t)) (coef_mono m s t).
+  Proof.
+    intros Hk. unfold PolySem.coef_mono. rewrite (sem_permute_monomial_partial ks m s Hk).
+    destruct (act_mono m s) as [[[sg s']|]| | |c|];
+      try (unfold sgn; destruct (xorb (sign_of ks s) (sign_of ks t)); [ring|reflexivity]).
+    rewrite state_eqb_perm. destruct (state_eqb s' t) eqn:E.
+    - apply state_eqb_iff in E. subst s'. unfold sgn.
+      destruct sg, (sign_of ks s), (sign_of ks t); cbn [xorb]; try reflexivity; ring.
+    - unfold sgn. destruct (xorb (sign_of ks s) (sign_of ks t)); [ring|reflexivity].
+  Qed.
+
+  Theorem sem_permute_poly_partial (ks : list nat) (p : poly K) (s t : state) :
+    (forall k, In k ks -> S k < length s) ->
+    coef_poly (poly_rename ks p) (state_perm ks s) (state_perm ks t) =
+    sgn (xorb (sign_of ks s) (sign_of ks t)) (coef_poly p s t).
+  Proof.
+    intros Hk. unfold PolySem.coef_poly, poly_rename.
+    induction p as [|[m c] r IH]; cbn [map fold_right fst snd].
+    - unfold sgn. destruct (xorb (sign_of ks s) (sign_of ks t)); [ring|reflexivity].
+    - rewrite IH, (coef_mono_permute ks m s t Hk). unfold sgn.
+      destruct (xorb (sign_of ks s) (sign_of ks t)); [ring|reflexivity].
+  Qed.
+End PolyPermute.
+
+(** hypotheses satisfiable: integers as coefficients, H = 3 c^+_0 c_2 + 3 c^+_2 c_0 - 2 n_1 on 3 modes,
+    pi = (0 1)(1 2); one matrix element, original and conjugated *)
+Require Import ZArith.
+Example sem_permute_poly_example :
+  let ks := [0; 1] in
+  let p : poly Z := [([cdag 0; cann 2], 3%Z); ([cdag 2; cann 0], 3%Z); ([cdag 1; cann 1], (-2)%Z)] in
+  let s := [false; true; true] in
+  let t := [true; true; false] in
+  ring_theory 0%Z 1%Z Z.add Z.mul Z.sub Z.opp (@eq Z) /\
+  (forall k, In k ks -> S k < length s) /\
+  PolySem.coef_poly Z 0%Z 1%Z Z.add Z.mul Z.opp p s t = (-3)%Z /\
+  PolySem.coef_poly Z 0%Z 1%Z Z.add Z.mul Z.opp (poly_rename Z ks p) (state_perm ks s) (state_perm ks t) = 3%Z /\
+  xorb (sign_of ks s) (sign_of ks t) = true.
+Proof.
+  cbn zeta. split; [exact Zth|]. split; [intros k [<-|[<-|[]]]; cbn; lia|].
+  split; [vm_compute; reflexivity|]. split; vm_compute; reflexivity.
+Qed.
